@@ -41,6 +41,7 @@ type Program struct {
 	SpecByName bool     // fixtures: reference implementations are recognised by their Spec_ name, not by the overlay file
 	Drifted    []string // reference functions dropped because they no longer type-check
 	specIndex  map[string]*ssa.Function
+	panicMemo  map[*ssa.Function]int // 0 unknown, 1 in progress, 2 no, 3 yes
 	codeIndex  map[string]*ssa.Function
 }
 
@@ -794,4 +795,50 @@ func pkgNameOf(f *ssa.Function) string {
 		return f.Object().Pkg().Name()
 	}
 	return ""
+}
+
+// mayPanic: the repository function contains a panic statement or statically calls (through repository functions) one that does.
+func (p *Program) mayPanic(f *ssa.Function) bool {
+	if p.panicMemo == nil {
+		p.panicMemo = map[*ssa.Function]int{}
+	}
+	switch p.panicMemo[f] {
+	case 1, 2:
+		return false
+	case 3:
+		return true
+	}
+	p.panicMemo[f] = 1
+	res := false
+	var visit func(fn *ssa.Function)
+	visit = func(fn *ssa.Function) {
+		for _, b := range fn.Blocks {
+			for _, in := range b.Instrs {
+				switch x := in.(type) {
+				case *ssa.Panic:
+					res = true
+					return
+				case ssa.CallInstruction:
+					if g := x.Common().StaticCallee(); g != nil && g.Blocks != nil && g != fn {
+						if p.mayPanic(g) {
+							res = true
+							return
+						}
+					}
+				}
+			}
+		}
+		for _, anon := range fn.AnonFuncs {
+			if !res {
+				visit(anon)
+			}
+		}
+	}
+	visit(f)
+	if res {
+		p.panicMemo[f] = 3
+	} else {
+		p.panicMemo[f] = 2
+	}
+	return res
 }
